@@ -123,6 +123,22 @@ func (s *vSim) appEv(by, op, arg, res string) {
 	s.observe(s.logEv(verifsim.TraceEvent{K: "app", By: by, Op: op, Arg: arg, Res: res}), false)
 }
 
+func (s *vSim) appEvVal(by, op, arg, res, val string) {
+	s.observe(s.logEv(verifsim.TraceEvent{K: "app", By: by, Op: op, Arg: arg, Res: res, Val: val}), false)
+}
+
+// modeProbe: white-box state the mode machine depends on (Daemon.tla): the quorum-loss timer
+// (virtual ms since the scenario start, -1 = zero), the maintenance marker file, the hand-over switch
+func (s *vSim) modeProbe(in *vInst) string {
+	lq := int64(-1)
+	if !in.app.lostQuorumTime.IsZero() {
+		lq = in.app.lostQuorumTime.Sub(s.start).Milliseconds()
+	}
+	_, err := os.Stat(in.app.config.Maintenancefile)
+	return fmt.Sprintf("%d %v %v %d %d", lq, err == nil, in.app.config.ManagerSwitchover,
+		in.app.config.ManagerElectionDelayAfterQuorumLoss.Milliseconds(), in.app.config.ManagerLockAcquireDelayAfterQuorumLoss.Milliseconds())
+}
+
 // vNewSim creates the world: MySQL servers `hosts`, a ZooKeeper ensemble whose
 // tree registers them as HA nodes (cascade: host -> stream_from).
 func vNewSim(t *testing.T, hosts []string, cascade map[string]string, cfgMod func(*config.Config)) *vSim {
@@ -419,13 +435,13 @@ func (s *vSim) tickBody(in *vInst) (final appState) {
 		}
 		st := app.state
 		in.acts++
-		s.appEv(host, "Enter", string(st), "")
+		s.appEvVal(host, "Enter", string(st), "", s.modeProbe(in))
 		next := handlers[st]()
 		if in.dead {
 			s.appEv(host, "ExitDead", string(st), string(next))
 			return "DEAD"
 		}
-		s.appEv(host, "Exit", string(st), string(next))
+		s.appEvVal(host, "Exit", string(st), string(next), s.modeProbe(in))
 		if next == app.state {
 			break
 		}
